@@ -1103,7 +1103,13 @@ where
 
                 // Unique index semantics: allow idempotent insert of the same (doc_id, field_value)
                 // while rejecting a different doc_id for an existing field_value.
-                if !self.config.allow_duplicates && !posting.2.contains(&doc_id) {
+                // A posting that a concurrent `remove` has just emptied (and
+                // not yet deleted) is held by no document and conflicts with
+                // nothing.
+                if !self.config.allow_duplicates
+                    && !posting.2.is_empty()
+                    && !posting.2.contains(&doc_id)
+                {
                     return Err(BTreeError::AlreadyExists {
                         name: self.name.clone(),
                         id: json_value(&doc_id),
@@ -1421,6 +1427,7 @@ where
         if !self.config.allow_duplicates {
             for field_value in &field_values {
                 if let Some(posting) = self.postings.get(field_value)
+                    && !posting.2.is_empty()
                     && !posting.2.contains(&doc_id)
                 {
                     return Err(BTreeError::AlreadyExists {
@@ -1461,7 +1468,10 @@ where
                     // Re-check uniqueness constraint atomically while holding the entry lock.
                     // The pre-check above may have passed, but a concurrent insert could have
                     // added a different doc_id between the pre-check and here.
-                    if !self.config.allow_duplicates && !posting.2.contains(&doc_id) {
+                    if !self.config.allow_duplicates
+                        && !posting.2.is_empty()
+                        && !posting.2.contains(&doc_id)
+                    {
                         deferred_error = Some(BTreeError::AlreadyExists {
                             name: self.name.clone(),
                             id: json_value(&doc_id),
